@@ -227,8 +227,10 @@ class Env:
     def __init__(self, prefix):
         self.prefix = prefix
         self.trace = []        # (label, n_options, chosen)
+        self.costs = []
 
-    def choose(self, label, n):
+    def choose(self, label, n, cost=1):
+        """cost: what a non-default answer at this point costs against the deviation budget (0 = free)"""
         if n <= 0:
             raise HarnessError('choice point %r without options' % (label,))
         i = len(self.trace)
@@ -236,10 +238,11 @@ class Env:
         if c >= n:
             raise HarnessError('replay divergence at choice %d (%r): option %d of %d' % (i, label, c, n))
         self.trace.append((label, n, c))
+        self.costs.append(cost)
         return c
 
 
-def explore_choices(run, budget=None, max_exec=None, on_exec=None):
+def explore_choices(run, budget=None, max_exec=None, on_exec=None, shard=None):
     """
     run(env) executes the system once to completion calling env.choose(label, n) at every
     environment choice point, and returns an observation.  Enumerates every choice sequence whose
@@ -248,6 +251,10 @@ def explore_choices(run, budget=None, max_exec=None, on_exec=None):
     """
     stack = [((), ())]
     count = 0
+    dealt = 0
+    if shard is not None:
+        sk, sK = shard[0], shard[1]
+        sD = shard[2] if len(shard) > 2 else 1
     while stack:
         prefix, expect = stack.pop()
         env = Env(prefix)
@@ -260,16 +267,28 @@ def explore_choices(run, budget=None, max_exec=None, on_exec=None):
         if shape[:len(expect)] != expect:
             raise HarnessError('replay divergence: choice points %r became %r' % (expect, shape[:len(expect)]))
         choices = tuple(c for _, _, c in env.trace)
-        yield choices, obs
+        devs = sum(1 for c in prefix if c)
+        # one tree split over K workers: nodes with fewer than D deviations are executed by every shard (and reported
+        # by shard 0 only); the subtrees rooted at the nodes with exactly D deviations are dealt round-robin
+        if shard is None or devs >= sD or sk == 0:
+            yield choices, obs
         if max_exec is not None and count >= max_exec:
             raise HarnessError('execution cap %d hit in explore_choices' % max_exec)
-        used = sum(1 for c in choices[:len(prefix)] if c)
+        used = sum(env.costs[i] for i, c in enumerate(choices[:len(prefix)]) if c)
         ext = []
-        if budget is None or used + 1 <= budget:
-            for i in range(len(prefix), len(env.trace)):
-                n = env.trace[i][1]
-                for alt in range(1, n):
-                    ext.append((choices[:i] + (alt,), shape[:i + 1]))
+        for i in range(len(prefix), len(env.trace)):
+            if budget is not None and used + env.costs[i] > budget:
+                continue
+            n = env.trace[i][1]
+            for alt in range(1, n):
+                ext.append((choices[:i] + (alt,), shape[:i + 1]))
+        if shard is not None and devs + 1 == sD:
+            mine = []
+            for e in ext:
+                if dealt % sK == sk:
+                    mine.append(e)
+                dealt += 1
+            ext = mine
         # DFS order: earliest deviation first
         stack.extend(reversed(ext))
 
